@@ -113,6 +113,15 @@ impl Fixtures {
         for (label, text) in INLINE_DOCS {
             maps.push(Doc { bytes: Arc::new(text.as_bytes().to_vec()), label: (*label).to_string(), kind: DocKind::Inline });
         }
+        // deeply nested index maps (legal but unusual): recursion in decoding, flattening,
+        // formatting, cloning and dropping; the deepest one exceeds serde_json's recursion limit
+        for depth in [8usize, 35, 200] {
+            let mut text = String::from(INLINE_DOCS[0].1);
+            for d in 0..depth {
+                text = format!("{{\"version\":3,\"sections\":[{{\"offset\":{{\"line\":{},\"column\":{}}},\"map\":{}}}]}}", d % 3, d % 5, text);
+            }
+            maps.push(Doc { bytes: Arc::new(text.into_bytes()), label: format!("inline:nested-index-depth-{depth}"), kind: DocKind::Inline });
+        }
         if maps.len() < 10 {
             simcore::harness_error("fixture maps under /repo/tests/fixtures not found");
         }
